@@ -179,8 +179,8 @@ def run(ctx):
     sys_model(ctx)
     sys_replay(ctx)
     # manager level: every stimulus on every status - a responder whose channel already failed or was cancelled never sends an accepted Complete
-    stages.mgr_family(ctx, ["C01."], ["all"], lambda s: s["stim"]["kind"] == "OnChannelCompleted", quick_n=1500, model=False, sims=False,
-                      keep=lambda l: '"kind":"OnChannelCompleted"' in l or '"kind":"SendVoucherResult"' in l)
+    stages.mgr_family(ctx, ["C01."], ["all"], lambda s: s["stim"]["kind"] in ("OnChannelCompleted", "UpdateValidation", "SendVoucherResult"), quick_n=1500, model=False, sims=False,
+                      keep=lambda l: any(k in l for k in ('"kind":"OnChannelCompleted"', '"kind":"SendVoucherResult"', '"kind":"UpdateValidation"')))
     ctx.rule = ("REAL two-node transfers (two real managers, real graphsync transport, real libp2p adapter over mocknet): scenarios draw direction, payload (random bytes, duplicate blocks), "
                 "default/per-channel stores on either side, validator behaviour (successive data limits with re-validation, finalization), pause/resume by either side at a progress point, "
                 "and process bounce + restart of either side; both subscriber streams, final states and a DAG walk of the receiver's actual block store (at the instant of Completed and at "
